@@ -110,13 +110,15 @@ func jsonStringContent(raw string) (string, bool) {
 // ---------------------------------------------------------------- RFC 3339
 
 // RFC 3339 §5.6:
-//   date-fullyear = 4DIGIT; date-month = 2DIGIT ; 01-12; date-mday = 2DIGIT ; 01-28..31
-//   time-hour = 2DIGIT ; 00-23; time-minute = 2DIGIT ; 00-59; time-second = 2DIGIT ; 00-58, 00-59, 00-60
-//   time-secfrac = "." 1*DIGIT; time-numoffset = ("+" / "-") time-hour ":" time-minute
-//   time-offset = "Z" / time-numoffset
-//   partial-time = time-hour ":" time-minute ":" time-second [time-secfrac]
-//   full-date = date-fullyear "-" date-month "-" date-mday
-//   full-time = partial-time time-offset; date-time = full-date "T" full-time
+//
+//	date-fullyear = 4DIGIT; date-month = 2DIGIT ; 01-12; date-mday = 2DIGIT ; 01-28..31
+//	time-hour = 2DIGIT ; 00-23; time-minute = 2DIGIT ; 00-59; time-second = 2DIGIT ; 00-58, 00-59, 00-60
+//	time-secfrac = "." 1*DIGIT; time-numoffset = ("+" / "-") time-hour ":" time-minute
+//	time-offset = "Z" / time-numoffset
+//	partial-time = time-hour ":" time-minute ":" time-second [time-secfrac]
+//	full-date = date-fullyear "-" date-month "-" date-mday
+//	full-time = partial-time time-offset; date-time = full-date "T" full-time
+//
 // (ABNF literals are case-insensitive: "t" and "z" are admitted.)
 const (
 	reFullDate    = `(\d{4})-(0[1-9]|1[0-2])-(0[1-9]|[12]\d|3[01])`
